@@ -4,6 +4,7 @@
   with the implementation).  Kept apart from RsjProps/C10.lean on purpose.
 -/
 import RsjProofs.TraceStackEvalLimit
+import RsjProofs.EvalDepth
 namespace Rsj.Eval
 open Rsj.Core
 
@@ -60,10 +61,38 @@ def demoSt : St := { thunks := #[.done (.bool true)], runs := #[0] }
 example : run { maxStack := 0 } 3 (.equals (.arr [0]) (.arr [0]) 0) demoSt
     = some (.error .stackOverflow, demoSt) := rfl
 example : run { maxStack := 1 } 3 (.equals (.arr [0]) (.arr [0]) 0) demoSt
-    = some (.ok (.bool true), demoSt) := rfl
+    = some (.ok (.bool true), { demoSt with deepest := 1 }) := rfl
 example : run { maxStack := 5 } 3 (.equals (.arr [0]) (.arr [0]) 0) demoSt
-    = some (.ok (.bool true), demoSt) :=
-  C10_eval_limit_monotone (s := 1) (s' := 5) (by decide) 3 _ demoSt demoSt _ rfl
+    = some (.ok (.bool true), { demoSt with deepest := 1 }) :=
+  C10_eval_limit_monotone (s := 1) (s' := 5) (by decide) 3 _ demoSt _ _ rfl
+
+/-! ### The limit bounds the depth of evaluation -/
+
+/-- **C10 (recursion depth is bounded by the configured limit), on the evaluator model.** The
+    model records the depth (number of trace items) of every evaluator step it starts in the ghost
+    counter `deepest`. For every task whose own depth is within the limit, every fuel and every
+    store whose counter is within the limit, the counter is within the limit afterwards — whether
+    the task returns a value or an error: no step ever starts deeper than `maxStack`, because every
+    descent in `step` is guarded by the depth check (the verification conditions of
+    `RsjProofs/EvalDepth.lean` check this call site by call site). -/
+theorem C10_eval_never_deeper_than_limit (cfg : Cfg) (n : Nat) (task : Task) (st : St)
+    (ht : task.depth ≤ cfg.maxStack) (hs : st.deepest ≤ cfg.maxStack)
+    (r : Except Err Value) (st' : St) (h : run cfg n task st = some (r, st')) :
+    st'.deepest ≤ cfg.maxStack := by
+  have := (Depth.wp_MD _ cfg.maxStack st).1 (Depth.run_spec cfg n task st ⟨ht, hs⟩)
+  rw [h] at this
+  exact this
+
+/-- the same for a whole program evaluated from the empty store (evaluate, force deeply, manifest) -/
+theorem C10_eval_program_never_deeper_than_limit (cfg : Cfg) (fuel : Nat) (e : Expr)
+    (r : Except Err String) (st' : St) (h : programProg cfg fuel e {} = some (r, st')) :
+    st'.deepest ≤ cfg.maxStack := by
+  have := (Depth.wp_MD _ cfg.maxStack {}).1 (Depth.programProg_spec cfg fuel e {} (Nat.zero_le _))
+  rw [h] at this
+  exact this
+
+/-- non-vacuity: the counter does record depth — comparing `[t0] == [t0]` under limit 1 works at depth 1 -/
+example : (run { maxStack := 1 } 3 (.equals (.arr [0]) (.arr [0]) 0) demoSt).map (fun p => p.2.deepest) = some 1 := rfl
 
 end Rsj.Eval
 
@@ -75,3 +104,7 @@ open Rsj.Eval in
 #print axioms C10_eval_limit_monotone_seq
 open Rsj.Eval in
 #print axioms C10_evalProgram_limit_monotone
+open Rsj.Eval in
+#print axioms C10_eval_never_deeper_than_limit
+open Rsj.Eval in
+#print axioms C10_eval_program_never_deeper_than_limit
